@@ -105,7 +105,7 @@ Qed.
 Arguments phys_step : simpl never.
 
 Definition pstore (s : physfs) (hs : list hstate) (lg : list (nat * fscall)) (ft : option (nat * nat)) : store :=
-  mkStore [BPhys s] hs lg ft.
+  mkStore [BPhys s] hs lg ft IoOff.
 Definition pv : vfs := mkVfs 0 (fun c => Call (BFs 0 c) Ret).
 
 Definition pabsn (s : physfs) (n : pnode) : node :=
